@@ -276,6 +276,17 @@ def restore_basis(R, k):
                 getattr(c, nm).clear()
 
 
+def harness_M(system, t, q):
+    """The mass matrix as the scatter of the contributions' own mass matrices (nothing cached by the System)."""
+    M = np.zeros((system.nu, system.nu))
+    for c in system.contributions:
+        if hasattr(c, "M") and hasattr(c, "uDOF") and hasattr(c, "nu"):
+            m = c.M(t, q[c.qDOF])
+            m = m.toarray() if hasattr(m, "toarray") else np.asarray(m)
+            M[np.ix_(c.uDOF, c.uDOF)] += m
+    return M
+
+
 # ------------------------------------------------------------------ Solution contract (C20), cross-cutting
 FIELDS_DIM = {
     "q": "nq",
